@@ -142,6 +142,16 @@ class Model:
                         ci.fields.append(st.target.id)
                 self.classes[q] = ci
                 self._index_body(mi, node.body, prefix=q, cls=q, parent=parent)
+                # name = property(getter) / property(fget=getter): the decorator spelled out
+                for st in node.body:
+                    if isinstance(st, ast.Assign) and len(st.targets) == 1 and isinstance(st.targets[0], ast.Name) and isinstance(st.value, ast.Call) \
+                            and (_dotted(st.value.func) or "") == "property":
+                        g = st.value.args[0] if st.value.args else next((k.value for k in st.value.keywords if k.arg == "fget"), None)
+                        if isinstance(g, ast.Name) and f"{q}.{g.id}" in self.functions:
+                            fi = self.functions[f"{q}.{g.id}"]
+                            ci.properties.setdefault(st.targets[0].id, fi)
+                            ci.methods.pop(g.id, None)
+                            self.functions.setdefault(f"{q}.{st.targets[0].id}", fi)
             elif isinstance(node, (ast.FunctionDef, ast.AsyncFunctionDef)):
                 q = f"{prefix}.{node.name}"
                 fi = FuncInfo(q, mi.name, cls, node, parent, mi.path)
@@ -260,6 +270,21 @@ class Model:
 
     def local_name(self, qualname: str) -> str:
         return self.current(qualname).rsplit(".", 1)[-1]
+
+    def bind_call(self, qualname: str, args, kwargs, drop_self: bool = True) -> Dict[str, object]:
+        """Parameter name -> argument term for a call of the in-repo function `qualname`, whichever way the arguments were passed
+        (positionally or by keyword); parameters that were not given are absent."""
+        fi = self.func(qualname)
+        a = fi.node.args
+        params = [p.arg for p in a.posonlyargs + a.args]
+        if drop_self and params and params[0] in ("self", "cls") and fi.cls:
+            params = params[1:]
+        out = {}
+        for p_, v in zip(params, args):
+            out[p_] = v
+        for k, v in kwargs:
+            out[k] = v
+        return out
 
     def aliases(self) -> Dict[str, str]:
         """reference qualname -> current qualname for nested functions that were only renamed: a function of the frozen API
